@@ -527,6 +527,77 @@ theorem final_value {g : FlowGrid} {fuel : Nat} (hT : AllTerminate g fuel) (noda
 
 end Walk
 
+/-! ### memory model: with two distinct buffers the kernel is the pure function and never writes the field -/
+
+theorem walkS_unaliased {α : Type} [Add α] (g : FlowGrid) (nodata : α) (src : Nat) (fuel : Nat) (cur : Int)
+    (f a : Array α) :
+    walkS g nodata src fuel cur ⟨f, a, false⟩ =
+      (walk g f nodata src fuel cur a).map (fun a' => (⟨f, a', false⟩ : Store α)) := by
+  induction fuel generalizing cur a with
+  | zero => rfl
+  | succ fuel ih =>
+    unfold walkS walk
+    cases downstream g cur with
+    | error e => rfl
+    | ok d =>
+      simp only [Store.accArr, Store.setAcc, Bool.false_eq_true, if_false]
+      split
+      · cases writeAt a cur nodata <;> rfl
+      · cases f[src]? with
+        | none => rfl
+        | some v =>
+          simp only []
+          cases addAt a d v with
+          | error e => rfl
+          | ok a' => exact ih d a'
+
+theorem accLoopS_unaliased {α : Type} [Add α] (g : FlowGrid) (nodata : α) (fuel : Nat) (l : List Nat)
+    (f a : Array α) :
+    accLoopS g nodata fuel l ⟨f, a, false⟩ =
+      (accLoop g f nodata fuel l a).map (fun a' => (⟨f, a', false⟩ : Store α)) := by
+  induction l generalizing a with
+  | nil => rfl
+  | cons i rest ih =>
+    unfold accLoopS accLoop
+    rw [walkS_unaliased]
+    cases walk g f nodata i fuel (i : Int) a with
+    | error e => rfl
+    | ok a' => exact ih a'
+
+theorem cAccumulateS_unaliased_eq {α : Type} [Add α] (g : FlowGrid) (m : Int) (nodata : α) (f a : Array α) :
+    cAccumulateS g m nodata ⟨f, a, false⟩ =
+      (cAccumulate g m nodata f a).map (fun a' => (⟨f, a', false⟩ : Store α)) := by
+  unfold cAccumulateS cAccumulate
+  split
+  · rfl
+  · split
+    · rfl
+    · exact accLoopS_unaliased g nodata _ _ f a
+
+/-- the last position of a value in a list -/
+theorem exists_last_index {l : List Int} {x : Int} (h : x ∈ l) :
+    ∃ k, l[k]? = some x ∧ ∀ k', k < k' → l[k']? ≠ some x := by
+  induction l with
+  | nil => simp at h
+  | cons y rest ih =>
+    by_cases hr : x ∈ rest
+    · obtain ⟨k, h1, h2⟩ := ih hr
+      refine ⟨k + 1, by simpa using h1, fun k' hk' => ?_⟩
+      cases k' with
+      | zero => omega
+      | succ k' => simpa using h2 k' (by omega)
+    · have hxy : x = y := by
+        rcases List.mem_cons.1 h with h | h
+        · exact h
+        · exact absurd h hr
+      subst hxy
+      refine ⟨0, rfl, fun k' hk' => ?_⟩
+      cases k' with
+      | zero => omega
+      | succ k' =>
+        intro hc
+        exact hr (List.mem_of_getElem? (by simpa using hc))
+
 theorem allTerminate_of_B {g : FlowGrid} {fuel : Nat} (h : allTerminateB g fuel = true) : AllTerminate g fuel := by
   intro c hv
   obtain ⟨h1, h2⟩ := lt_of_valid hv
